@@ -512,6 +512,7 @@ class Interp:
         if fd.body is None:
             raise Inconclusive('function %s has no body' % qn)
         self.prog.used[qn] = fd
+        V.CALL_STACK.append(qn)
         self.depth += 1
         if self.depth > self.max_depth:
             self.depth -= 1
@@ -540,6 +541,7 @@ class Interp:
             return r
         finally:
             self.depth -= 1
+            V.CALL_STACK.pop()
 
     def coerce_to_type(self, v, ty):
         """apply declared integer type to python ints (so that usize arithmetic is checked)"""
